@@ -515,17 +515,25 @@ def build(prop, thorough, rnd):
         roundtrips(("class", "function", "method", "argparse"), view=True, files_every=(3 if thorough else 12))
     elif prop == "C08":
         for kind in KINDS:
-            for o in kind_opts(kind, thorough):
+            opts = kind_opts(kind, thorough)
+            many = len(opts) > 8          # function / method in thorough: 144 option records
+            for oi, o in enumerate(opts):
                 acts = [("emit", kind, o), ("parse",), ("emit", kind, o), ("parse",), ("emit", kind, o), ("parse",)]
-                for tb in (ts if thorough else (T0, T1)):
-                    for air in single:
+                for ti, tb in enumerate(ts if thorough else (T0, T1)):
+                    for j, air in enumerate(single):
+                        if many and (ti > 0 or j % 4 != oi % 4):
+                            continue      # every option record on a quarter of the single-slot domain with one table
                         add(tb, air, acts)
                 if not thorough:
                     for air in single[:: 3]:
                         add(TL, air, acts)
                 for j, air in enumerate(tri_s[: (len(tri_s) if thorough else 300)]):
+                    if many and j % len(opts) != oi:
+                        continue
                     add(ts[j % len(ts)], air, acts)
                 for j, air in enumerate(wide[: (len(wide) if thorough else 200)]):
+                    if many and j % len(opts) != oi:
+                        continue
                     add(ts[j % len(ts)], air, acts)
     elif prop == "C05":
         pairs = [(a, b) for a in KINDS for b in KINDS if a != b]
@@ -550,6 +558,16 @@ def build(prop, thorough, rnd):
                     acts += [("emit", kind, o_for(kind)), ("parse",)]
                 add(ts[j % len(ts)], air, acts)
                 scs[-1]["mode"] = "chain"
+        # chains that are always exercised (they carry known findings which sampling would reach only in the thorough tier)
+        for j, air in enumerate(single):
+            ps = air["params"]
+            if len(ps) == 1 and ps[0]["typ"] in ("float", "bool", "int") and ps[0]["def"] == "absent" and ps[0]["dbase"] == "own" and not air["ret"]["present"]:
+                for ch in (("function", "rest", "argparse"), ("method", "rest", "argparse")):
+                    acts = []
+                    for kind in ch:
+                        acts += [("emit", kind, o_for(kind)), ("parse",)]
+                    add(ts[j % 2], air, acts)
+                    scs[-1]["mode"] = "chain"
     else:
         raise ValueError(prop)
     return scs
